@@ -14,6 +14,7 @@ import Driver.Util
 import JanetModel.Marsh.IntCodec
 import JanetModel.Marsh.Size
 import JanetModel.Marsh.Graph
+import JanetModel.Asm.Operand
 open Driver JanetModel.Marsh
 
 def dropFirst (s : String) (k : Nat) : String := String.ofList (s.toList.drop k)
@@ -161,6 +162,19 @@ def step (_ : Unit) (toks : List String) : Unit × String :=
       | none => ((), "err")
     | none => ((), "bad-op")
   | ["unmarshal"] => ((), "err")
+  | "asmword" :: opn :: args =>
+    match opn.toNat? with
+    | some k =>
+      match JanetModel.Gen.Bytecode.Op.ofNat? k with
+      | some op =>
+        match args.mapM (·.toInt?) with
+        | some as =>
+          match JanetModel.Asm.encode op as with
+          | some w => ((), hexByte (w / 16777216) ++ hexByte (w / 65536) ++ hexByte (w / 256) ++ hexByte w)
+          | none => ((), "err")
+        | none => ((), "bad-op")
+      | none => ((), "bad-op")
+    | none => ((), "bad-op")
   | _ => ((), "bad-op")
 
 def main : IO Unit := runLoop () step
